@@ -39,7 +39,12 @@ func (i *fieldIndex) UnmarshalJSON(data []byte) error {
 	i.nameSplit = fieldPath(i.Name)
 
 	for _, f := range i.Index {
-		f.valueTypeFromString(i.Cast)
+		if f == nil {
+			return fmt.Errorf("%w: null entry in index %s", ErrBadIndexEntry, i.Name)
+		}
+		if err := f.valueTypeFromString(i.Cast); err != nil {
+			return err
+		}
 	}
 
 	i.objectIds = make(map[uint64]*indexedField)
